@@ -215,6 +215,19 @@ Definition sk_edges_with_self_loops_nothr : sx :=
       N "cols" [as_ "node_id_l" (col "_" "uid"); as_ "node_id_r" (col "_" "uid")];
       N "from" [A "NODES"]]].
 
+(* edges_with_self_loops/thr0
+   Model/CC.v: threshold 0.0 is a threshold like any other: thr_edges_n (Some 0) still has the WHERE
+     clause (a NULL match_probability does not pass it) *)
+Definition sk_edges_with_self_loops_thr0 : sx :=
+  N "union" [
+    N "select" [
+      N "cols" [as_ "node_id_l" (col "_" "uid_l"); as_ "node_id_r" (col "_" "uid_r")];
+      N "from" [A "EDGES"];
+      N "where" [N "ge" [col "_" "match_probability"; N "num" [A "0.0"]]]];
+    N "select" [
+      N "cols" [as_ "node_id_l" (col "_" "uid"); as_ "node_id_r" (col "_" "uid")];
+      N "from" [A "NODES"]]].
+
 (* python_loop
    Model/CC.v: cc_loop: at least one pass (counter initialised to 1), repeat while the count of
      needs_updating rows of the table just produced is > 0, no other way out of the loop *)
@@ -242,7 +255,8 @@ Definition expected : list (string * sx) :=
    ("loop/df_representatives", sk_loop_df_representatives);
    ("loop/exit_condition", sk_loop_exit_condition);
    ("final_union_all", sk_final_union_all);
-   ("edges_with_self_loops/nothr", sk_edges_with_self_loops_nothr)].
+   ("edges_with_self_loops/nothr", sk_edges_with_self_loops_nothr);
+   ("edges_with_self_loops/thr0", sk_edges_with_self_loops_thr0)].
 
 Fixpoint lookup_sk (name : string) (l : list (string * sx)) : option sx :=
   match l with
